@@ -36,7 +36,8 @@ CHECKS = {
              "model is tied to /repo by running generated (types x defaults x JSON values x presence) requests "
              "through the real engine and comparing info.variable_values / error attribution inside Coq with "
              "both models; leaves are the scalar definitions regenerated from source. "
-             "45 absolute leaf expectations (value -> refused / delivered value with its Python type; top level, list items, input-object fields; two orders) guard the scalar input rules at variable positions independently of the models, which take those rules from the source.",
+             "45 absolute leaf expectations (value -> refused / delivered value with its Python type; top level, list items, input-object fields; two orders) guard the scalar input rules at variable positions independently of the models, which take those rules from the source. "
+             "Twin schemas: two engines of one process define the same type names differently (input fields of other types, other enum values, another scalar implementation) and get the same operation texts, in both orders -- each coerces by its own schema.",
         note="Trusted: Coq kernel, correspondence harness (generators, printer), parser stand-in, translator for "
              "scalar leaves; directive hooks absent from this model (C13); custom scalars are oracle triples.",
         design="4 C04"),
